@@ -14,3 +14,20 @@ DOCS = {
     "noise": f'<?xml version="1.0"?><svg {NS} viewBox="0 0 100 100"><?pi x?><title>t</title><symbol><rect width="1" height="1"/></symbol><rect width="20" height="20" fill-rule="evenodd" stroke="black" stroke-width="2"/></svg>',
     "offcanvas": f'<svg {NS} viewBox="0 0 50 50"><rect x="-20" y="-20" width="30" height="30" fill="red"/><rect x="100" y="100" width="5" height="5"/><g opacity="0.5"><rect x="40" y="40" width="30" height="30"/><rect x="10" y="10" width="5" height="5"/></g></svg>',
 }
+
+OPTIONS = {"text": {"allow_text": True}, "text_group": {"allow_text": True}}
+
+
+def extra_docs():
+    """documents for the determinism / idempotence / reference checks"""
+    return {
+        "text": f'<svg {NS} viewBox="0 0 100 100" fill="red" stroke-width="2" fill-rule="evenodd" stroke-linecap="round" opacity="0.9"><text x="10" y="20" font-size="8">hi <tspan dy="3">there</tspan></text><rect width="5" height="5"/></svg>',
+        "text_group": f'<svg {NS} viewBox="0 0 100 100"><g fill="blue" stroke="none" fill-opacity="0.5" clip-rule="evenodd" display="inline"><text x="1" y="2">a</text></g></svg>',
+        "three_gradients": f'<svg {NS} viewBox="0 0 100 100"><defs>'
+                           + "".join(f'<linearGradient id="g{c}" x1="0" x2="1"><stop offset="0" stop-color="red"/><stop offset="1" stop-color="blue"/></linearGradient>' for c in "abc")
+                           + '</defs>' + "".join(f'<rect x="{10 * i}" y="0" width="8" height="8" fill="url(#g{c})"/>' for i, c in enumerate("abc")) + '</svg>',
+        "nested_clip_bad": f'<svg {NS} viewBox="0 0 20 20"><defs><clipPath id="X" clip-path="url(#Y)"><rect width="6" height="10"/></clipPath></defs><rect width="10" height="10" clip-path="url(#X)"/></svg>',
+        "nested_clip_good": f'<svg {NS} viewBox="0 0 20 20"><defs><clipPath id="Y"><rect width="10" height="4"/></clipPath><clipPath id="X" clip-path="url(#Y)"><rect width="6" height="10"/></clipPath>'
+                            f'<clipPath id="Z" clip-path="url(#X)"><rect width="10" height="10"/></clipPath></defs><rect width="10" height="10" clip-path="url(#Z)"/></svg>',
+        "stroked": f'<svg {NS} viewBox="0 0 50 50"><path d="M5,5 L40,5 L40,40" fill="none" stroke="black" stroke-width="3" id="p"/><circle cx="20" cy="20" r="6" fill="red" stroke="blue" id="c"/></svg>',
+    }
